@@ -47,6 +47,9 @@ class Pair:
         self.viol: list = []
         self.aged = False
         self.dup_used = False
+        self.lost = 0          # frames dropped so far
+        self.early_used = 0    # retry timers that fired while frames were still in flight
+        self.blackhole = False
 
     def message(self, side: str, i: int):
         return msg.DatasetPurge(ds=DatasetId(side, str(i)))
@@ -86,6 +89,7 @@ class Pair:
             elif kind == "drop":
                 self.net.drop(i)
                 self.faults_left -= 1
+                self.lost += 1
             else:
                 self.net.duplicate(i)
                 self.faults_left -= 1
@@ -98,6 +102,7 @@ class Pair:
         elif kind == "tick":
             if self.net.flight:
                 self.early_left -= 1
+                self.early_used += 1
             self.tick(ev[1])
 
     def recv(self, s: str) -> None:
@@ -122,6 +127,11 @@ class Pair:
         except ValueError as e:
             if "retried too many times" not in str(e):
                 self.viol.append(("sender_raised", "unexpected error from maybe_retry", repr(e)))
+            elif not self.blackhole and self.lost + self.early_used < MAX_RETRIES:
+                # by the time it raises, MAX_RETRIES transmissions have gone unanswered: legitimate only if each of them
+                # (or its Ack) was lost, or the timer fired before the answer could arrive
+                self.viol.append(("gave_up_on_reachable_peer", "sender raised 'retried too many times' although fewer frames were lost than transmissions went unanswered",
+                                  f"{s}: {e}; frames lost {self.lost}, early timers {self.early_used}, handed up at peer: {self.handed['Y' if s == 'X' else 'X']}"))
             self.gave_up[s].add(str(e))
 
     def canon(self):
@@ -148,6 +158,7 @@ class Pair:
 
     # ---- fair closure: no more faults, everything in flight arrives, both loops and timers keep running
     def closure(self) -> list:
+        n0 = len(self.viol)
         for _ in range(4 * (MAX_RETRIES + 3)):
             while self.net.flight:
                 addr = self.net.flight[0][0]
@@ -170,13 +181,14 @@ class Pair:
                     out.append(("handed_up_twice", "an application message was handed to the receiver twice", f"{m}"))
                 if n == 0 and not self.gave_up[s]:
                     out.append(("lost_silently", "a sent message was neither delivered nor reported as undeliverable", f"{m} from {s}; inflight {dict(self.S[s].inflight)}"))
-        return out
+        return list(self.viol[n0:]) + out
 
 
 def blackhole_closure(p: Pair) -> list:
     """the peer became unreachable: every frame is lost from now on; each sender with an unconfirmed message must
     raise after a bounded number of retries"""
     out = []
+    p.blackhole = True
     for s in "XY":
         if not p.S[s].inflight or p.gave_up[s]:
             continue
@@ -253,6 +265,32 @@ def framing(acc: dict):
                 viol.append(("malformed_accepted", "a malformed frame sequence was delivered as a message", f"{seq} -> {res[1]!r}", rp))
             elif want[0] == "msg" and (res[0] != "msg" or res[1] != want[1]):
                 viol.append(("wellformed_rejected_or_altered", "a well-formed frame sequence was rejected or decoded differently", f"{seq} -> {res}", rp))
+    # (d) two datagrams into one listener: a retry / duplicate (same Syn) is acknowledged again and dropped, for the
+    # two-frame and for the three-frame (payload) shape alike; the same content under a new Syn is a new message
+    shapes = {"message": ("M",), "payload": ("H", "R")}
+    for sname, body in shapes.items():
+        for second in ("same-syn", "new-syn", "same-syn-thrice"):
+            n += 1
+            addr = f"inproc://G{n}"
+            lst = comms.Listener(addr)
+            seqs = [("S1",) + body, (("S1",) if second != "new-syn" else ("S2",)) + body] + ([("S1",) + body] if second == "same-syn-thrice" else [])
+            for sq in seqs:
+                net.queues[addr].append([A[x] for x in sq])
+            acks_before = len(net.queues.get("inproc://S", ()))
+            rp = {"part": "framing", "seq": [list(x) for x in seqs], "pairs": True}
+            try:
+                got = [lst._recv_one(0) for _ in seqs]
+            except Exception as e:
+                viol.append(("listener_raised", f"{type(e).__name__} on a well-formed frame", f"{seqs}: {e!r}", rp))
+                continue
+            handed = [g for g in got if g is not None]
+            want_n = 2 if second == "new-syn" else 1
+            if len(handed) != want_n:
+                cause = "an application message was handed to the receiver twice" if len(handed) > want_n else "a new message was dropped as a duplicate"
+                viol.append(("handed_up_twice" if len(handed) > want_n else "new_message_dropped", cause + f" ({sname} framing)", f"{seqs} -> {got!r}"[:300], rp))
+            acks = len(net.queues.get("inproc://S", ())) - acks_before
+            if acks != len(seqs):
+                viol.append(("retry_not_acknowledged", f"a datagram carrying a Syn was not acknowledged ({sname} framing)", f"{seqs}: {acks} acks for {len(seqs)} datagrams", rp))
     acc["framing_sequences"] = n
     return viol
 
